@@ -77,7 +77,7 @@ func VerifC18Restore() {
 	creds := func(tok string) *verifRec {
 		h := http.Header{}
 		h.Set("Authorization", tok)
-		return w.call(handler.NewCredentialsHandler(w.ctx.credentialsService), "GET", h, nil, nil)
+		return w.callDirect(handler.NewCredentialsHandler(w.ctx.credentialsService), "GET", h)
 	}
 	c0 := creds(token)
 	verifAssert(c0.status == 200 && strings.Contains(string(c0.body), `"AccessKeyId":"key0"`) && strings.Contains(string(c0.body), `"Token":"session0"`), "credentials are served for the per-instance token")
